@@ -302,6 +302,34 @@ func (x *instr) stmts(list []ast.Stmt) []ast.Stmt {
 	return out
 }
 
+var osRewrites = map[string]string{
+	"os.OpenFile": "OSOpenFile", "os.Rename": "OSRename", "os.Remove": "OSRemove", "os.ReadFile": "OSReadFile",
+	"(*os.File).Write": "OSWrite", "(*os.File).Sync": "OSSync", "(*os.File).Close": "OSClose",
+}
+
+// rewriteOS turns os file calls into verifrt wrappers (native crash/fault injection).
+func (x *instr) rewriteOS(f *ast.File) {
+	ast.Inspect(f, func(n ast.Node) bool {
+		call, ok := n.(*ast.CallExpr)
+		if !ok {
+			return true
+		}
+		name := x.callee(call)
+		w, ok := osRewrites[name]
+		if !ok {
+			return true
+		}
+		fun := &ast.SelectorExpr{X: ast.NewIdent("verifrt"), Sel: ast.NewIdent(w)}
+		if strings.HasPrefix(name, "(*os.File).") {
+			sel := call.Fun.(*ast.SelectorExpr)
+			call.Args = append([]ast.Expr{sel.X}, call.Args...)
+		}
+		call.Fun = fun
+		x.used = true
+		return true
+	})
+}
+
 // instrumentPackage returns virtual-path -> instrumented source for every non-test file of dir.
 func instrumentPackage(dir string) (map[string][]byte, error) {
 	pkg := loadedPkgs[dir]
@@ -315,6 +343,9 @@ func instrumentPackage(dir string) (map[string][]byte, error) {
 			continue
 		}
 		x := &instr{fset: pkg.Fset, info: pkg.TypesInfo}
+		if !strings.Contains(name, "zz_verif_") {
+			x.rewriteOS(f)
+		}
 		for _, d := range f.Decls {
 			if fd, ok := d.(*ast.FuncDecl); ok && fd.Body != nil {
 				x.block(fd.Body)
